@@ -1,6 +1,6 @@
 (* C19 — property theorems only.  Statements are full; proofs are [exact lemma]. *)
 From Coq Require Import List NArith Bool Permutation.
-From LE Require Import Sync.PeerSelect Sync.PeerSelectProofs Sync.Handlers Sync.HandlersProofs Sync.Converge Sync.ConvergeProofs.
+From LE Require Import Sync.PeerSelect Sync.PeerSelectProofs Sync.Handlers Sync.HandlersProofs Sync.Converge Sync.ConvergeProofs Sync.Download.
 Import ListNotations.
 Local Open Scope N_scope.
 
@@ -95,11 +95,11 @@ Proof. exact start_search_height_spec. Qed.
 (* "partial": stated for an honest peer (it answers the common block [cid] and delivers its blocks after it), the
    common block at or above the finalized height and, for fast sync, both tips within two rounds of it; peer
    selection and the common-block search rounds are covered by their own theorems, not composed in *)
-Theorem C19_honest_peer_converges_partial : forall valid rs n pre cid own blocks th r2,
+Theorem C19_honest_peer_converges_partial : forall valid rs cs n pre cid own blocks th r2,
   chain n = pre ++ cid :: own -> ~ In cid pre ->
   (finalized n <= length pre)%nat -> (length own <= r2)%nat -> (th - length pre <= r2)%nat ->
   all_valid valid (pre ++ [cid]) blocks ->
-  fast_sync valid rs n (Some cid) blocks EndOk th r2 =
+  fast_sync valid rs cs n (Some cid) blocks EndOk th r2 =
     ({| chain := pre ++ cid :: blocks; temp := []; finalized := finalized n; banned := banned n |}, Synced) /\
   block_sync valid n (Some cid) blocks EndOk =
     ({| chain := pre ++ cid :: blocks; temp := []; finalized := finalized n; banned := banned n |}, Synced).
@@ -107,44 +107,68 @@ Proof.
   intros. split; [eapply honest_peer_converges_fast; eassumption|eapply honest_peer_converges_block; eassumption].
 Qed.
 
-(* REPAIRED code (restoreBlocks deletes without saving): if blocks downloaded during fast sync prove invalid, wherever
-   the invalid block sits, the original blocks are restored and the peer is banned *)
+(* CURRENT code (restoreBlocks deletes without saving, stale temp blocks cleared first): if blocks downloaded during fast
+   sync prove invalid, wherever the invalid block sits and whatever temp blocks earlier syncs left behind, the original
+   blocks are restored and the peer is banned *)
 Theorem C19_failed_fast_sync_restores_and_bans : forall valid n pre cid own good bad rest th r2,
-  chain n = pre ++ cid :: own -> ~ In cid pre -> temp n = [] ->
+  chain n = pre ++ cid :: own -> ~ In cid pre ->
   (finalized n <= length pre)%nat -> (length own <= r2)%nat -> (th - length pre <= r2)%nat ->
   all_valid valid (pre ++ [cid]) good -> valid ((pre ++ [cid]) ++ good) bad = false ->
   all_valid valid (pre ++ [cid]) own ->
-  let '(n', o) := fast_sync valid false n (Some cid) (good ++ bad :: rest) EndOk th r2 in
+  let '(n', o) := fast_sync valid false true n (Some cid) (good ++ bad :: rest) EndOk th r2 in
   chain n' = chain n /\ banned n' = true /\ o = Failed.
 Proof. exact failed_fast_sync_restores_and_bans. Qed.
 
-(* ORIGINAL code (restoreBlocks deleting with saveTemp = true): only when the FIRST applied block is the invalid one *)
+(* ORIGINAL code: only when the FIRST applied block is the invalid one and no temp block was left behind *)
 Theorem C19_failed_fast_sync_orig_first_block_case : forall valid n pre cid own bad rest th r2,
   chain n = pre ++ cid :: own -> ~ In cid pre -> temp n = [] ->
   (finalized n <= length pre)%nat -> (length own <= r2)%nat -> (th - length pre <= r2)%nat ->
   valid (pre ++ [cid]) bad = false -> all_valid valid (pre ++ [cid]) own ->
-  let '(n', o) := fast_sync valid true n (Some cid) (bad :: rest) EndOk th r2 in
+  let '(n', o) := fast_sync valid true false n (Some cid) (bad :: rest) EndOk th r2 in
   chain n' = chain n /\ banned n' = true /\ o = Failed.
 Proof. exact failed_fast_sync_orig_first_block_case. Qed.
 
 Theorem C19_failed_fast_sync_restores_orig_refuted :
   exists valid n cid own blocks th r2,
     chain n = [0] ++ own /\ cid = 0 /\ temp n = [] /\ all_valid valid [0] own /\
-    let '(n', o) := fast_sync valid true n (Some cid) blocks EndOk th r2 in
+    let '(n', o) := fast_sync valid true false n (Some cid) blocks EndOk th r2 in
     chain n' <> chain n /\ banned n' = false.
 Proof. exact failed_fast_sync_restores_orig_refuted. Qed.
 
+(* restore repaired but stale temp blocks (left by a failed block sync, which never restores) not cleared *)
+Theorem C19_failed_fast_sync_stale_temp_refuted :
+  exists valid n cid own blocks th r2,
+    chain n = [0; 5] ++ own /\ cid = 5 /\ all_valid valid [0; 5] own /\
+    let '(n', o) := fast_sync valid false false n (Some cid) blocks EndOk th r2 in
+    chain n' <> chain n /\ banned n' = false.
+Proof. exact failed_fast_sync_stale_temp_refuted. Qed.
+
 (* a truncated stream or a statelessly invalid block leaves a fast-syncing node's chain untouched *)
-Theorem C19_fast_sync_bad_stream_no_change : forall valid rs n common blocks e th r2, e <> EndOk ->
-  chain (fst (fast_sync valid rs n common blocks e th r2)) = chain n /\
-  snd (fast_sync valid rs n common blocks e th r2) <> Synced.
+Theorem C19_fast_sync_bad_stream_no_change : forall valid rs cs n common blocks e th r2, e <> EndOk ->
+  chain (fst (fast_sync valid rs cs n common blocks e th r2)) = chain n /\
+  snd (fast_sync valid rs cs n common blocks e th r2) <> Synced.
 Proof. exact fast_sync_bad_stream_no_change. Qed.
 
 (* no block at or below the finalized height is ever deleted, whatever the peer answers or serves *)
-Theorem C19_sync_never_deletes_finalized : forall valid rs n common blocks e th r2,
+Theorem C19_sync_never_deletes_finalized : forall valid rs cs n common blocks e th r2,
   (finalized n < length (chain n))%nat ->
-  keeps n (fst (fast_sync valid rs n common blocks e th r2)) /\ keeps n (fst (block_sync valid n common blocks e)).
+  keeps n (fst (fast_sync valid rs cs n common blocks e th r2)) /\ keeps n (fst (block_sync valid n common blocks e)).
 Proof. intros. split; [apply fast_sync_keeps_finalized; assumption|apply block_sync_keeps_finalized; assumption]. Qed.
+
+(* ---------------------------------------------------------------- downloader (download.go, repaired) *)
+(* for EVERY sequence of peer answers (empty lists, repeated or foreign segments, errors) the download loop ends within
+   (target height - start height) + 1 requests and delivers at most (target height - start height) blocks *)
+Theorem C19_download_bounded : forall resp fuel k last endh endid acc,
+  (endh - last < fuel)%nat ->
+  let '(acc', e) := download resp k fuel last endh endid acc in
+  e <> DlOutOfFuel /\ (length acc' <= length acc + (endh - last))%nat.
+Proof. exact download_bounded. Qed.
+
+(* the original loop: never ends against empty answers, grows without bound against a repeated segment *)
+Theorem C19_download_orig_refuted :
+  (forall fuel k last endid acc, snd (download_orig (fun _ => Some []) k fuel last endid acc) = DlOutOfFuel) /\
+  (forall fuel k last acc, length (fst (download_orig (fun _ => Some [(1%nat, 7)]) k fuel last 9 acc)) = (length acc + fuel)%nat).
+Proof. split; [exact download_orig_unbounded|exact download_orig_grows]. Qed.
 
 (* non-vacuity *)
 Example C19_ex_best : best_spec_b w_infos (Build_ni 10 5 1 1) = true /\ valid_result_b w_infos (Build_ni 10 5 1 1) = true.
